@@ -80,6 +80,16 @@ def graph_stream(ctx, n):
         model = sorted(ctx.driver.call("gs", dict(payload, pick="first")))
         ok_oracle = chk["matching"] and chk["blocking"] is None
         same = (M == model) or not strict
+        if strict and same:
+            # "whatever order the storms are considered in": the same problem with the storms entered in
+            # another order (another construction order of the pool) must give the same matching
+            keys = list(cand)
+            ctx.rng.shuffle(keys)
+            try:
+                again = cm.find_stable_matching({k: list(cand[k]) for k in keys}, copy.deepcopy(prefs))
+                same = sorted([r, s2] for r, s2 in again.items()) == M
+            except Exception:  # noqa
+                same = False
         ctx.obligation(ob, same and ok_oracle)
         if len(ctx.samples) < 2:
             ctx.sample({"graph": inp, "matching": M})
